@@ -1,8 +1,9 @@
-(* C09 — Fragment reassembly.  Only property theorems here, each closed by `exact`. *)
-From EDP Require Import Base.Bytes Gen.FragConsts Dist.Fragment Dist.FragmentFacts.
+(* C09 — Fragment reassembly.  Only property theorems here, each closed by `exact`,
+   pinned by `Check` and followed by `Print Assumptions`. *)
+From EDP Require Import Base.Bytes Gen.FragConsts Dist.Fragment Dist.FragmentFacts Dist.FragmentRefine.
 
-(* Sequences are isolated: an operation on sequence s' never changes what the assembler holds for s <> s',
-   and what an operation on s returns / leaves behind depends only on the entry of s. *)
+(* 1. Isolation: an operation on sequence s' never changes what the assembler holds for s <> s';
+      what an operation on s returns and leaves behind depends only on the entry of s. *)
 Theorem C09_isolation_start : forall a s s' fid c d now,
   s <> s' -> lookup s (fst (asm_start a s' fid c d now)) = lookup s a.
 Proof. exact asm_start_other. Qed.
@@ -20,3 +21,75 @@ Theorem C09_own_entry_only_add : forall a s fid d now,
   lookup s (fst (asm_add a s fid d now)) = fst (seq_add (lookup s a) fid d now)
   /\ snd (asm_add a s fid d now) = snd (seq_add (lookup s a) fid d now).
 Proof. exact asm_add_own. Qed.
+
+(* 2. Exactly once, when and only when the last missing fragment arrives, in any arrival order, with
+      duplicates and out-of-range ids: for a header announcing n <= MAX_FRAGMENTS_VEC fragments, the
+      entry of the sequence refines the abstract assembler `astep` (a set of delivered ids that answers
+      `result` at the event that makes the set cover 1..n, and is idle again afterwards).
+      Every event list over {header, continuation 1<=i<n, junk id 0 or >n} is covered. *)
+Theorem C09_exactly_once_refinement : forall n D c, 1 <= n -> n <= max_fragments_vec ->
+  forall es, Forall (fun en => conf n (fst en)) es ->
+  crun n D c None es = arun n D c [] es.
+Proof. intros n D c H1 H2 es Hc. exact (sim_run n D c H1 H2 es [] None (R_init n D c H1 H2) Hc). Qed.
+
+(* 3. What is returned: the cache bytes followed by the fragments in ASCENDING id order. *)
+Theorem C09_result_is_ascending_concat : forall n D c,
+  result n D c = (match c with Some x => x | None => [] end) ++ concat (map D (ids_from 1 (N.to_nat n))).
+Proof. reflexivity. Qed.
+
+(* 4. Nothing is kept for a completed sequence. *)
+Theorem C09_removed_on_completion_add : forall a s fid d now r,
+  snd (asm_add a s fid d now) = Some r -> lookup s (fst (asm_add a s fid d now)) = None.
+Proof.
+  intros a s fid d now r H. destruct (asm_add_own a s fid d now) as (H1 & H2).
+  rewrite H1. rewrite H2 in H. exact (seq_add_some_removed _ _ _ _ _ H).
+Qed.
+
+Theorem C09_removed_on_completion_start : forall a s fid c d now r,
+  snd (asm_start a s fid c d now) = Some r -> lookup s (fst (asm_start a s fid c d now)) = None.
+Proof.
+  intros a s fid c d now r H. destruct (asm_start_own a s fid c d now) as (H1 & H2).
+  rewrite H1. rewrite H2 in H. exact (seq_start_some_removed _ _ _ _ _ _ H).
+Qed.
+
+(* 5. Full-strength statement ("returns the ORIGINAL") is false of the faithful model:
+      the original of a conforming sender is the DESCENDING concatenation. *)
+Definition original (n : N) (D : N -> bytes) (c : option bytes) : bytes :=
+  (match c with Some x => x | None => [] end) ++ concat (map D (rev (ids_from 1 (N.to_nat n)))).
+
+Theorem C09_refuted_order : exists n D c es,
+  1 <= n /\ n <= max_fragments_vec /\ Forall (fun en => conf n (fst en)) es /\
+  exists r, In (Some r) (crun n D c None es) /\ r <> original n D c.
+Proof.
+  exists 2, (fun k => if k =? 2 then [65] else [66]), None, [(CHdr, 0); (CCont 1, 0)].
+  split; [lia|]. split; [unfold max_fragments_vec; lia|]. split.
+  - repeat constructor; cbn; lia.
+  - exists [66; 65]. split; [vm_compute; auto|vm_compute; discriminate].
+Qed.
+
+(* ... and holds off the recorded class (Known_C09_order := ascending <> descending concatenation) *)
+Theorem C09_returns_original_off_known_class : forall n D c,
+  concat (map D (ids_from 1 (N.to_nat n))) = concat (map D (rev (ids_from 1 (N.to_nat n)))) ->
+  result n D c = original n D c.
+Proof. intros n D c H. unfold result, original, asc, ids. f_equal. exact H. Qed.
+
+(* 6. Recorded finding C09-veclimit: a sequence announcing more than MAX_FRAGMENTS_VEC fragments is
+      accepted and then never completes, whatever arrives. *)
+Theorem C09_refuted_veclimit : forall c cache d now, max_fragments_vec < c -> c <= max_fragment_count ->
+  exists m, seq_start None c cache d now = (Some m, None) /\ stuck c m /\
+  forall fid d' now', exists m', seq_add (Some m) fid d' now' = (Some m', None) /\ stuck c m'.
+Proof.
+  intros c cache d now H1 H2. destruct (stuck_start c cache d now H1 H2) as (m & Hs & Hst).
+  exists m. split; [exact Hs|]. split; [exact Hst|]. intros fid d' now'.
+  exact (stuck_seq_add c m fid d' now' ltac:(unfold max_fragments_vec in H1; lia) Hst).
+Qed.
+
+(* non-vacuity: a 3-fragment message arriving out of order with a duplicate and a junk id *)
+Example C09_example :
+  crun 3 (fun k => [k]) (Some [9]) None
+       [(CCont 1, 0); (CJunk 7 [0], 1); (CHdr, 2); (CCont 1, 3); (CCont 2, 4); (CCont 2, 5)]
+  = [None; None; None; None; Some [9; 1; 2; 3]; None].
+Proof. vm_compute. reflexivity. Qed.
+
+Check C09_exactly_once_refinement : forall n D c, 1 <= n -> n <= max_fragments_vec ->
+  forall es, Forall (fun en => conf n (fst en)) es -> crun n D c None es = arun n D c [] es.
